@@ -55,8 +55,14 @@ theorem compile_proper (ar : CellId → Option Nat) (params : List Val) :
       · simp only [Proper]
         exact ⟨fun v => hk v, fun e => hh.2 e⟩
       · exact hh.1 _
-  | .readN r, k, h, hk, _ => by simp only [compile, Proper]; exact hk
-  | .readA r, k, h, hk, _ => by simp only [compile, Proper]; exact hk
+  | .readN r, k, h, hk, hh => by
+    simp only [compile, Proper]; intro o; cases o with
+    | some v => exact hk v
+    | none => exact hh.1 _
+  | .readA r, k, h, hk, hh => by
+    simp only [compile, Proper]; intro o; cases o with
+    | some v => exact hk v
+    | none => exact hh.1 _
   | .raise e, k, h, _, hh => by simp only [compile]; exact hh.1 _
   | .try_ a c b, k, h, hk, hh => by
     simp only [compile]
